@@ -285,7 +285,7 @@ impl Prop for C16 {
         true
     }
     fn cases(&self, ctx: &Ctx) -> u64 {
-        ctx.tier.pick(320, 6_000)
+        ctx.tier.pick(640, 8_000)
     }
     fn rule(&self) -> &'static str {
         "real binary: file contents of all sizes (grammar programs, seeds, hostile inputs) in variants whose result is shorter (inflated whitespace), longer (one-line layout), equal (already formatted) and empty x modes {files, stdout, check} x path forms {file, directory, glob, --files-from, stdin} x sampled configurations; reference = stdin->stdout of the same binary with the same options; oracles: bytes after files mode == reference (no stale tail), check exit status == (content equals reference), bytes/mtime/inode unchanged by stdout and check mode and by files mode on formatted content; unreadable (mode 000, binary run as nobody), undecodable and missing files leave everything untouched and make the exit status non-zero. Non-trivial: result length != input length; distinct by content hash + configuration."
